@@ -263,8 +263,8 @@ def run(cx):
             "option settings; exhaustive pairs of duplicate-free user-ordered sequences; non-trivial = distinct (schema, A, B, opts) "
             "whose diff is not empty or whose reply is a distinct error")
     rng = cx.sub_rng("schemas")
-    nsch = cx.n(34, 100)
-    per = cx.n(64, 300)
+    nsch = cx.n(28, 100)
+    per = cx.n(56, 300)
     schemas = [tg.gen_schema(rng, i, max_depth=rng.choice([2, 3, 3])) for i in range(nsch)]
     corpus_cases = load_corpus(cx)
     cases = []
